@@ -12,6 +12,9 @@ CHECKS = {
     'C06': dict(category='model_checking', engine='Solver', technique='TLA+ Solver.tla fault alphabet: TLC exhaustive + simulation; fault behaviours replayed; naturally faulting models trace-validated by SolverTrace.tla',
                 text='Same machine as C02 with the fault alphabet fully open (silent NaN/inf, warning-raising operations, exceptions in statements and hooks, pre-existing non-finite cells, invalid errors=); TLC checks the C06 policy invariants; every faulting behaviour is replayed on the real solver; executions of models that fault naturally are validated against SolverTrace.tla.',
                 note='Trusted: as C02; warning-raising operations realised by NumPy float64 arithmetic.', ref='6.1, 7 (C06)'),
+    'C05': dict(category='model_checking', engine='MultiSolve', technique='TLA+ MultiSolve.tla: TLC exhaustive over span length x (start,end) labels x options x fault position; behaviours replayed through solve() on nine span types and against an explicit solve_t loop twin',
+                text='MultiSolve.tla models solve()/iter_periods()/solve_period() step by step with per-period outcomes taken from Solver.tla terminal summaries; TLC checks visits, returned triple, containment of failures and early rejection for every behaviour within the bound; each behaviour is replayed on the real code over nine span types and compared with the spec and with a twin driven by the explicit per-period loop.',
+                note='Trusted: TLC; scripted per-period faults; spans carry distinct labels and are at least LAGS+LEADS+1 long.', ref='6.2, 7 (C05)'),
 }
 
 NOT_YET = {}
